@@ -26,9 +26,9 @@ import (
 )
 
 const (
-	maxRBFSeq   = uint32(0xfffffffd) // mempool.MaxRBFSequence
-	finalSeq    = uint32(0xffffffff)
-	anchorSat   = int64(330)
+	maxRBFSeq = uint32(0xfffffffd) // mempool.MaxRBFSequence
+	finalSeq  = uint32(0xffffffff)
+	anchorSat = int64(330)
 )
 
 // Source says how a pair of channels is obtained: a chanmc world (type, opener,
@@ -244,6 +244,13 @@ func deliveryScript(kind string, party int) []byte {
 		// a future segwit version: OP_2 <30 bytes> (32 bytes): accepted by
 		// ValidateUpfrontShutdown, priced as an unknown witness output (354 sat).
 		return append([]byte{0x52, 0x1e}, fill(30, seed+4)...)
+	case "opret":
+		// OP_RETURN <20 bytes of data> (simple-close only: the owner burns its funds;
+		// lnd's shutdown validation refuses it, so pure/api parts only).
+		return append([]byte{0x6a, 0x14}, fill(20, seed+5)...)
+	case "opret1":
+		// a bare OP_RETURN (one byte, the same for both parties)
+		return []byte{0x6a}
 	case "p2tr":
 		// x-only key of a fixed private key so the output is a valid taproot key.
 		var k [32]byte
@@ -263,7 +270,39 @@ type refResult struct {
 	net    [2]int64 // gross minus fee for the payer
 	has    [2]bool  // output present (net >= owner's dust limit)
 	outs   []*wire.TxOut
-	trim   int64 // value of trimmed outputs (goes to miners)
+	trim   int64   // value of trimmed outputs (goes to miners)
+	burn   [2]bool // output present but zero-valued: the owner's delivery script is an OP_RETURN (simple close)
+}
+
+// isOpReturn: the harness' own test (it only generates well-formed scripts).
+func isOpReturn(script []byte) bool { return len(script) > 0 && script[0] == 0x6a }
+
+// withOpReturn applies the simple-close rule of BOLT 2 (closing_complete: an
+// OP_RETURN closer/closee script means "the output amount is zero"): a party that
+// hands in an OP_RETURN delivery script gives its whole balance to the miners by
+// its own choice. Whether the output is present is still decided by the owner's
+// dust limit on its balance; the burnt amount is accounted like trimmed value.
+// Only used for the flow with a custom sequence (WithCustomSequence /
+// WithCustomTxInSequence = the RBF flow); the legacy flow never sees OP_RETURN.
+func (r refResult) withOpReturn(scripts [2][]byte) refResult {
+	if !r.ok {
+		return r
+	}
+	var outs []*wire.TxOut
+	for i := 0; i < 2; i++ {
+		if !r.has[i] {
+			continue
+		}
+		v := r.net[i]
+		if isOpReturn(scripts[i]) {
+			r.burn[i] = true
+			r.trim += v
+			v = 0
+		}
+		outs = append(outs, &wire.TxOut{Value: v, PkScript: scripts[i]})
+	}
+	r.outs = outs
+	return r
 }
 
 // refClose: each party's output equals its balance (commit fee and anchors
@@ -299,6 +338,8 @@ func (r refResult) shape() string {
 	s := ""
 	for i := 0; i < 2; i++ {
 		switch {
+		case r.burn[i]:
+			s += "r" // OP_RETURN output of value zero
 		case r.has[i]:
 			s += "o"
 		case r.net[i] == 0:
@@ -308,6 +349,18 @@ func (r refResult) shape() string {
 		}
 	}
 	return s
+}
+
+// tie marks the cells in which both outputs are present with the same value
+// (BIP69 then orders them by script bytes: "<" A's script sorts first, ">" B's).
+func (r refResult) tie() string {
+	if !r.ok || len(r.outs) != 2 || r.outs[0].Value != r.outs[1].Value {
+		return ""
+	}
+	if bytes.Compare(r.outs[0].PkScript, r.outs[1].PkScript) < 0 {
+		return "=<"
+	}
+	return "=>"
 }
 
 func outKey(o *wire.TxOut) string { return fmt.Sprintf("%d:%x", o.Value, o.PkScript) }
